@@ -41,6 +41,7 @@ ATTR_SHIMS = {
     ("np", "clip"): "clip",
     ("np", "arctan2"): "arctan2",
     ("np", "cross"): "cross",
+    ("np", "linspace"): "linspace",
 }
 for _u in ("sqrt", "sin", "cos", "tan", "arccos", "arcsin", "arctan", "log", "log10", "exp"):
     ATTR_SHIMS[("np", _u)] = "u_" + _u
@@ -189,7 +190,7 @@ def extraction_report() -> dict:
         "modules": len(_REPORT),
         "call_rewrites": sum(m["rewrites"] for m in _REPORT.values()),
         "shimmed_builtins": sorted(BUILTIN_SHIMS),
-        "shimmed_library_calls": ["math.isclose", "np.isnan", "np.clip", "np.arctan2", "np.cross", "np.linalg.norm", "np.<unary ufunc> (sqrt sin cos tan arccos arcsin arctan log log10 exp)"],
+        "shimmed_library_calls": ["math.isclose", "np.isnan", "np.clip", "np.arctan2", "np.cross", "np.linspace", "np.linalg.norm", "np.<unary ufunc> (sqrt sin cos tan arccos arcsin arctan log log10 exp)"],
         "rebindings": ["util.constants.DTYPE := object", "util.functions.norm := sqrt-of-squares model (symbolic args only)",
                        "util.functions.rotation_matrix := Rodrigues model (symbolic args only)"],
     }
